@@ -211,6 +211,25 @@ fn masks_case(rng: &mut Rng, rep: &mut Report, idx: u64) {
     if culled.iter().any(|c| *c) && culled.iter().any(|c| !*c) {
         rep.count("masks.scenes_with_some_triangles_culled_and_some_drawn");
     }
+    // layers covering each pixel, in submission order (flat list + offsets),
+    // and whether one of them draws the pixel twice through its own clip fan
+    let mut cov_at = Vec::with_capacity(npx + 1);
+    let mut cov_flat: Vec<usize> = vec![];
+    let mut cov_excl = vec![false; npx];
+    for p in 0..npx {
+        cov_at.push(cov_flat.len());
+        for (li, l) in layers.iter().enumerate() {
+            if culled[li] || l.z[p].to_bits() == Z_MARK.to_bits() {
+                continue;
+            }
+            if l.multi[p] {
+                cov_excl[p] = true;
+            }
+            cov_flat.push(li);
+        }
+    }
+    cov_at.push(cov_flat.len());
+    let cover = |p: usize| -> (&[usize], bool) { (&cov_flat[cov_at[p]..cov_at[p + 1]], cov_excl[p]) };
     let tests = [None, Some(Ordering::Less), Some(Ordering::Equal), Some(Ordering::Greater)];
     for tk in [Tk::FbOwned, Tk::ColOwned] {
         for &dt in &tests {
@@ -267,21 +286,6 @@ fn masks_case(rng: &mut Rng, rep: &mut Report, idx: u64) {
                             }
                             (c, z, fo, tie)
                         };
-                        // layers covering each pixel, in submission order
-                        let cover = |p: usize| -> (Vec<usize>, bool) {
-                            let mut v = vec![];
-                            let mut excluded = false;
-                            for (li, l) in layers.iter().enumerate() {
-                                if culled[li] || l.z[p].to_bits() == Z_MARK.to_bits() {
-                                    continue;
-                                }
-                                if l.multi[p] {
-                                    excluded = true;
-                                }
-                                v.push(li);
-                            }
-                            (v, excluded)
-                        };
                         // which call a layer (= triangle index) belongs to
                         let call_of: Vec<usize> = {
                             let mut v = vec![];
@@ -296,7 +300,7 @@ fn masks_case(rng: &mut Rng, rep: &mut Report, idx: u64) {
                         for p in 0..npx {
                             let (cov, excluded) = cover(p);
                             exp_fi += cov.len();
-                            let (c, z, fo, _) = sim(p, &cov, false);
+                            let (c, z, fo, _) = sim(p, cov, false);
                             exp_fo += fo;
                             if !excluded && (out.col[p] != c || out.z[p] != z.to_bits()) && first_bad.is_none() {
                                 first_bad = Some((p, c, z));
